@@ -535,44 +535,9 @@ func sanitize(s *gSchema, frozen map[string]bool, feat map[string]int, wild bool
 			}
 		}
 	}
-	// a multimap KEY of dictionary-struct type that itself has a dictionary-struct field makes
-	// New<Root>Reader panic (known finding reader-panic-freeze)
-	for _, d := range s.Defs {
-		k := s.def(d.Key.Ref)
-		if d.Kind != "multimap" || d.Key.Array || k == nil || k.Kind != "struct" || k.Dict == "" {
-			continue
-		}
-		for _, f := range k.Fields {
-			x := s.def(f.Ty.Ref)
-			if !f.Ty.Array && x != nil && x.Kind == "struct" {
-				dropDict(x, "dict-key-nested-dict")
-			}
-		}
-	}
-	// a dictionary struct whose value can reach a recursive type panics in byteSize() when it is
-	// added to the encoder dictionary (known finding writer-panic-byteSize)
-	for _, d := range s.Defs {
-		if d.Kind != "struct" || d.Dict == "" || onCycle(s, d.Name) {
-			continue // on a cycle itself: refused by stefc (wild mode) or handled above
-		}
-		seen := map[string]bool{}
-		var reachesCycle func(n string) bool
-		reachesCycle = func(n string) bool {
-			for _, to := range typeEdges(s, s.def(n)) {
-				if seen[to] {
-					continue
-				}
-				seen[to] = true
-				if onCycle(s, to) || reachesCycle(to) {
-					return true
-				}
-			}
-			return false
-		}
-		if reachesCycle(d.Name) {
-			dropDict(d, "dict-struct-reaches-recursion")
-		}
-	}
+	// (two more avoidances stood here until the repository repaired the defects: a multimap key of
+	// dictionary-struct type with a dictionary-struct field - reader-panic-freeze, e75a995 - and a
+	// dictionary struct that reaches a recursive type - writer-panic-byteSize, 03a6b52.)
 	return ok
 }
 
